@@ -86,6 +86,18 @@ func init() {
 					status = L(A("PANIC"), A(panicClass(fmt.Sprint(r))))
 				}
 			}()
+			// every third project is renamed by the command itself, run the way the README shows it (with -p):
+			// `coca refactor -R rename.conf -d coca_reporter/deps.json -p DIR` in a scratch report directory
+			if cliEnabled() && (len(texts.Items())+len(conf))%3 == 0 {
+				sess := newCliSess()
+				defer sess.close()
+				sess.writeJSON("deps.json", deps)
+				os.WriteFile(filepath.Join(sess.dir, "rename.conf"), []byte(conf), 0o644)
+				if out, ok := sess.run("refactor", "-R", "rename.conf", "-d", "coca_reporter/deps.json", "-p", rootArg(dir, texts)); !ok {
+					status = L(A("PANIC"), A(panicClass(out)))
+				}
+				return
+			}
 			rename.RenameMethodApp(deps).Refactoring(conf)
 		}()
 		files := []Sx{}
